@@ -20,12 +20,14 @@ TRUSTED = ["Coq 8.16.1 kernel + vm_compute + primitive floats",
            "float -> int truncation int(clb*ptp) is modelled through FloatOps.Prim2SF (Corr_C08.ftrunc)",
            "harness/c08.py, harness/coqgen.py"]
 RULE = ("point sets: continuous (several scales), integer grids, dyadic grids (points exactly on midpoints), duplicated rows, "
-        "constant columns; 1-4 columns, 1-150 rows; count_ubound in {0,1,2,3,5,8,20}; cutpoint_proportion_lbound in "
+        "constant columns, adjacent doubles; 1-4 columns, 1-150 rows; count_ubound in {0,1,2,3,5,8,20}; cutpoint_proportion_lbound in "
         "{0,1e-9,.01,.1,.25,.5,.9,1,2}; then 2-7 fill/reset(0) operations under ids build/a/b/c with and without reset (same / shifted "
         "distribution, the build data itself, subsets, empty samples, points exactly on the tree's split values); observables: "
         "the whole tree, leaves order, leaf_counts per id, kl_distance, to_plotly_dataframe rows, _distn_from_counts. "
         "Non-trivial: the tree has at least one split and at least one fill was executed; distinct by case content. "
-        "Excluded (see notes/design_C08.md): NaN/inf/-0.0 coordinates, columns whose extreme values are adjacent doubles.")
+        "Adjacent-doubles families (columns made of 2-3 consecutive doubles, alone or as a tight cluster inside spread-out "
+        "data, both rounding parities of the midpoint) aim at the clause `midpoint >= max` of the stop rule; the two former "
+        "witnesses (RecursionError, missing child) are the first cases. Excluded: NaN/inf/-0.0 coordinates.")
 SHARD = 25
 
 IDNAME = ["build", "a", "b", "c"]
@@ -540,18 +542,6 @@ def nontrivial(case, obs):
     return any(o["k"] == "fill" for o in case["ops"])
 
 
-def signature(case, obs, msgs):
-    def has_missing(t):
-        if t is None or "ax" not in t:
-            return False
-        return t["l"] is None or t["r"] is None or has_missing(t["l"]) or has_missing(t["r"])
-    if obs.get("recursion"):
-        return {"corner": "adjacent-doubles", "effect": "recursion"}
-    if has_missing(obs.get("tree0")):
-        return {"corner": "adjacent-doubles", "effect": "missing-child"}
-    return {"corner": None}
-
-
 # ------------------------------------------------------------------ generators
 def clean(x):
     x = float(x)
@@ -574,46 +564,80 @@ def gen_points(rng, kind, n, m):
     elif kind == "const":
         x = rng.integers(0, 6, size=(n, m)).astype(float)
         x[:, rng.integers(0, m)] = 2.0
+    elif kind in ("adj", "adjmix"):
+        # columns made of 2-3 consecutive doubles (the midpoint of two adjacent doubles rounds to the
+        # even one: up to the maximum or down to the minimum depending on the parity of the base)
+        if kind == "adj":
+            x = np.empty((n, m))
+        else:
+            x = rng.normal(size=(n, m)) * rng.choice([1.0, 10.0])
+        for a in range(m):
+            if kind == "adjmix" and a > 0 and rng.random() < 0.5:
+                continue
+            base = float(rng.choice([0.3, 1.0, 0.1 * 7, 1e-3, 123.456, -2.5, 2.0 ** -1022, 1e300])) if rng.random() < 0.5 \
+                else float(rng.normal() * rng.choice([1.0, 1e6, 1e-6]))
+            for _ in range(int(rng.integers(0, 3))):
+                base = math.nextafter(base, math.inf)
+            vals = [base]
+            for _ in range(int(rng.integers(1, 3))):
+                vals.append(math.nextafter(vals[-1], math.inf))
+            pick = np.array(vals)[rng.integers(0, len(vals), size=n)]
+            if kind == "adj":
+                x[:, a] = pick
+            else:
+                # a tight cluster of adjacent doubles inside spread-out data
+                mask = rng.random(n) < 0.6
+                x[mask, a] = pick[mask]
     else:  # clusters
         c = rng.normal(size=(3, m)) * 10
         x = c[rng.integers(0, 3, size=n)] + rng.normal(size=(n, m))
     return [[clean(v) for v in row] for row in x]
 
 
-def adjacent_corner(data, m):
-    """some column of some subset could have adjacent-double extremes: only possible when two distinct
-    values of a column are adjacent doubles (never for the generated families; checked anyway)"""
-    for a in range(m):
-        col = sorted(set(r[a] for r in data))
-        for x, y in zip(col, col[1:]):
-            if math.nextafter(x, math.inf) == y:
-                return True
-    return False
-
-
 def tree_mids(case):
-    """split values of the implementation's tree (for boundary fill points)"""
+    """split values of the implementation's tree (for boundary fill points) and the number of leaves
+    that only the clause `midpoint >= max` of the stop rule explains (coverage statistic)"""
+    m, cub, clb = case["m"], case["cub"], case["clb"]
     try:
-        p = KDQTreePartitioner(count_ubound=case["cub"], cutpoint_proportion_lbound=case["clb"])
-        root = p.build(arr(case["data"], case["m"]))
+        p = KDQTreePartitioner(count_ubound=cub, cutpoint_proportion_lbound=clb)
+        a = arr(case["data"], m)
+        root = p.build(a)
     except Exception:
-        return []
-    return [(n.axis, float(n.midpoint_at_axis)) for n in preorder(root, []) if n.axis is not None]
+        return [], 0
+    only4 = 0
+    try:
+        mins = [int(clb * np.ptp(a[:, k])) for k in range(m)]
+        for n, depth, box in boxes(snap(root), m):
+            if "ax" in n:
+                continue
+            held = np.array([pt for pt in case["data"] if inside(pt, box)], dtype=float).reshape(-1, m)
+            col = held[:, depth % m]
+            cell = (col.min() + (col.max() - col.min()) / 2) - col.min()
+            if len(held) > cub and np.unique(held).size > cub and not cell <= mins[depth % m]:
+                only4 += 1
+    except Exception:
+        pass
+    return [(n.axis, float(n.midpoint_at_axis)) for n in preorder(root, []) if n.axis is not None], only4
 
 
 def gen_cases(ctx):
     rng = ctx.np_rng(8)
     r = ctx.rng
     cases = []
-    kinds = ["cont", "unif", "int", "dyadic", "dup", "const", "clusters"]
+    kinds = ["cont", "unif", "int", "dyadic", "dup", "const", "clusters", "adj", "adj", "adjmix", "adjmix"]
     st = ctx.stats
-    for key in ("kind", "m", "cub", "clb", "nodes", "ops", "fill_kind"):
+    for key in ("kind", "m", "cub", "clb", "nodes", "ops", "fill_kind", "leaves_explained_only_by_midpoint_ge_max"):
         st[key] = {}
     def bumpstat(key, v):
         st[key][str(v)] = st[key].get(str(v), 0) + 1
     ncases = ctx.scale(320, 5000)
     # small hand-made boundary cases first
     hand = [
+        # the two former witnesses of the adjacent-doubles corner (RecursionError / missing child with lost points)
+        {"cub": 1, "clb": 0.25, "m": 1, "data": [[0.3], [0.30000000000000004]],
+         "ops": [{"k": "fill", "data": [[0.3], [0.30000000000000004], [0.8], [0.2]], "id": 1, "reset": False}]},
+        {"cub": 1, "clb": 0.25, "m": 2, "data": [[0.3, 1.0], [0.30000000000000004, 2.0], [0.3, 3.0]],
+         "ops": [{"k": "fill", "data": [[0.8, 1.0], [0.9, 2.5], [0.2, 1.0]], "id": 1, "reset": False}]},
         {"cub": 1, "clb": 0.0, "m": 1, "data": [[0.0], [2.0], [4.0]]},               # a point exactly on the midpoint
         {"cub": 1, "clb": 0.25, "m": 1, "data": [[0.0], [8.0], [4.0], [2.0], [6.0]]},   # cell size == min size boundary
         {"cub": 2, "clb": 0.5, "m": 2, "data": [[0.0, 0.0], [4.0, 4.0], [2.0, 2.0], [2.0, 4.0], [0.0, 4.0]]},
@@ -629,16 +653,18 @@ def gen_cases(ctx):
         n = r.choice([1, 2, 3, 5, 8, 13, 21, 34, 55, 55]) if r.random() < 0.8 else r.randint(56, ctx.scale(110, 150))
         cub = r.choice([0, 1, 1, 2, 2, 3, 5]) if n < 34 or r.random() < 0.5 else r.choice([5, 8, 20])
         clb = r.choice([0.0, 1e-9, 0.01, 0.01]) if r.random() < 0.55 else r.choice([0.1, 0.25, 0.25, 0.5, 0.9, 1.0, 2.0])
+        if kind in ("adj", "adjmix"):
+            cub = r.choice([0, 1, 1, 2, 3])
+            clb = r.choice([0.0, 1e-9, 0.01, 0.25]) if kind == "adj" else r.choice([0.0, 1e-9, 0.01])
         data = gen_points(rng, kind, n, m)
-        if adjacent_corner(data, m):
-            continue
         cases.append({"cub": cub, "clb": clb, "m": m, "data": data, "kind": kind})
     for c in cases:
         m, data = c["m"], c["data"]
-        mids = tree_mids(c)
+        mids, only4 = tree_mids(c)
         bumpstat("nodes", min(len(mids), 50) // 5 * 5)
-        ops = []
-        used = {0}
+        bumpstat("leaves_explained_only_by_midpoint_ge_max", min(only4, 3))
+        ops = list(c.get("ops", []))
+        used = {0} | {o["id"] for o in ops}
         for _ in range(r.randint(2, 6)):
             if r.random() < 0.1:
                 i = r.choice([1, 2, 3])
@@ -646,6 +672,8 @@ def gen_cases(ctx):
                 continue
             fk = r.choice(["same", "shift", "build", "subset", "empty", "mids", "other"])
             kind = c["kind"] if c["kind"] != "hand" else "int"
+            if kind in ("adj", "adjmix") and r.random() < 0.5:
+                kind = "cont"
             if fk == "same":
                 pts = gen_points(rng, kind, r.choice([1, 4, 10, 30]), m)
             elif fk == "shift":
